@@ -29,7 +29,11 @@ type rebState struct {
 	TVS     []math.LegacyDec
 }
 
-func buildReb(third int, curK int, second int) *rebState {
+func buildReb(third int, curK int, second int) *rebState { return buildRebZ(third, curK, second, -1) }
+
+// buildRebZ: zeroV names a validator that holds no shares of asset 0 (-1: all hold some);
+// every other share amount is strictly positive, which keeps the number of paths small.
+func buildRebZ(third int, curK int, second int, zeroV int) *rebState {
 	t0 := nd.TimeRange("t0", TLo, THi)
 	e := env.New(t0, 100)
 	_ = e.K.SetParams(e.Ctx, types.Params{RewardDelayTime: time.Hour, TakeRateClaimInterval: 5 * time.Minute, LastTakeRateClaimTime: t0})
@@ -77,7 +81,14 @@ func buildReb(third int, curK int, second int) *rebState {
 		tvs := math.LegacyZeroDec()
 		var row []math.LegacyDec
 		for v := 0; v < s.NVals; v++ {
-			vs := nd.DecRange("vs_"+string(rune('0'+v))+an, "0", Pow12)
+			lo := "0.000000000000000001"
+			if a == 1 && nd.Thorough() {
+				lo = "0" // the second asset may be absent from a validator (symbolic)
+			}
+			vs := nd.DecRange("vs_"+string(rune('0'+v))+an, lo, Pow12)
+			if a == 0 && v == zeroV {
+				vs = math.LegacyZeroDec()
+			}
 			row = append(row, vs)
 			tvs = tvs.Add(vs)
 			if vs.IsPositive() {
@@ -155,10 +166,15 @@ func (s *rebState) target(v int) math.LegacyDec {
 // assets; unbonded / unbonding / jailed validators are neither counted nor adjusted.
 func H_C10_target() {
 	id := "C10.target"
-	third := nd.Choice("third", 4)
+	nThird := 2
+	if nd.Thorough() {
+		nThird = 4
+	}
+	third := nd.Choice("third", nThird)
 	curK := nd.Choice("current", 3)
 	second := nd.Choice("second", 3)
-	s := buildReb(third, curK, second)
+	zeroV := nd.Choice("zero", 3) - 1
+	s := buildRebZ(third, curK, second, zeroV)
 	e := s.E
 	var err error
 	nd.Reach(id)
@@ -187,7 +203,8 @@ func H_C10_target() {
 func H_C10_trigger() {
 	id := "C10.trigger"
 	ev := nd.Choice("event", 12)
-	st := Build([]Pos{{0, 0, 0}, {1, 1, 0}}, Opts{})
+	warm := nd.Choice("warmup", 2) // the asset may still be in its warm-up period: the request must be queued all the same
+	st := Build([]Pos{{0, 0, 0}, {1, 1, 0}}, Opts{Started: warm})
 	e := st.E
 	hooks := e.K.StakingHooks()
 	native := Dels[1] // a native (non-alliance) staker
